@@ -338,6 +338,11 @@ func CheckValue(rep Reporter, rnd *rand.Rand, it *Item, x Codec, hostile bool, m
 			return
 		}
 		if bytes.Equal(again, c.boxed) {
+			if !negZero && reflect.TypeOf(x) == reflect.TypeOf(y) {
+				if path := DeepDiff(x, y); path != "" {
+					c.bad(clause, class+"-field", what+": field "+path+" differs although both re-encode identically", map[string]any{"json": txt(js)})
+				}
+			}
 			return
 		}
 		if negZero {
@@ -415,6 +420,12 @@ func CheckValue(rep Reporter, rnd *rand.Rand, it *Item, x Codec, hostile bool, m
 		}
 		if !bytes.Equal(again, boxed) {
 			c.bad(clause, "value-differs", "value read back differs from the value written (compared by canonical TL1)", map[string]any{"reread_tl1_boxed_hex": hx(again)})
+		} else if reflect.TypeOf(x) == reflect.TypeOf(y) {
+			// the canonical comparison goes through the writer twice; a writer that loses something
+			// the same way both times is only seen by comparing the Go values
+			if path := DeepDiff(x, y); path != "" {
+				c.bad(clause, "value-differs-field", "value read back differs from the value written in field "+path+" although both re-encode identically", nil)
+			}
 		}
 	}
 	if y := readBack("tl1-bare", it.New, bare, func(o Codec, b []byte) ([]byte, error) { return o.ReadTL1(b) }); y != nil {
@@ -640,6 +651,91 @@ func CheckFunctionResult(rep Reporter, rnd *rand.Rand, it *Item, fn Codec, hosti
 		judged++
 	}
 	return judged
+}
+
+// DeepDiff compares two values of the same generated type field by field and returns the
+// path of the first difference ("" if none).  nil and empty slices/maps are the same value,
+// floats are compared by bit pattern except that all NaNs are alike.
+func DeepDiff(a, b any) string {
+	var diff func(x, y reflect.Value, path string, depth int) string
+	diff = func(x, y reflect.Value, path string, depth int) string {
+		if depth > 16 {
+			return ""
+		}
+		if x.Kind() != y.Kind() {
+			return path + " (kind)"
+		}
+		switch x.Kind() {
+		case reflect.Pointer, reflect.Interface:
+			if x.IsNil() || y.IsNil() {
+				if x.IsNil() != y.IsNil() {
+					return path + " (nil)"
+				}
+				return ""
+			}
+			return diff(x.Elem(), y.Elem(), path, depth+1)
+		case reflect.Struct:
+			if x.Type() != y.Type() {
+				return path + " (type)"
+			}
+			for i := 0; i < x.NumField(); i++ {
+				if d := diff(x.Field(i), y.Field(i), path+"."+x.Type().Field(i).Name, depth+1); d != "" {
+					return d
+				}
+			}
+		case reflect.Slice, reflect.Array:
+			if x.Len() != y.Len() {
+				return fmt.Sprintf("%s (len %d vs %d)", path, x.Len(), y.Len())
+			}
+			if x.Kind() == reflect.Slice && x.Type().Elem().Kind() == reflect.Uint8 {
+				if !bytes.Equal(x.Bytes(), y.Bytes()) {
+					return path
+				}
+				return ""
+			}
+			for i := 0; i < x.Len(); i++ {
+				if d := diff(x.Index(i), y.Index(i), fmt.Sprintf("%s[%d]", path, i), depth+1); d != "" {
+					return d
+				}
+			}
+		case reflect.Map:
+			if x.Len() != y.Len() {
+				return fmt.Sprintf("%s (len %d vs %d)", path, x.Len(), y.Len())
+			}
+			for it := x.MapRange(); it.Next(); {
+				yv := y.MapIndex(it.Key())
+				if !yv.IsValid() {
+					return fmt.Sprintf("%s[%v] (missing)", path, it.Key())
+				}
+				if d := diff(it.Value(), yv, fmt.Sprintf("%s[%v]", path, it.Key()), depth+1); d != "" {
+					return d
+				}
+			}
+		case reflect.String:
+			if x.String() != y.String() {
+				return path
+			}
+		case reflect.Bool:
+			if x.Bool() != y.Bool() {
+				return path
+			}
+		case reflect.Int, reflect.Int8, reflect.Int16, reflect.Int32, reflect.Int64:
+			if x.Int() != y.Int() {
+				return path
+			}
+		case reflect.Uint, reflect.Uint8, reflect.Uint16, reflect.Uint32, reflect.Uint64, reflect.Uintptr:
+			if x.Uint() != y.Uint() {
+				return path
+			}
+		case reflect.Float32, reflect.Float64:
+			fx, fy := x.Float(), y.Float()
+			if math.Float64bits(fx) != math.Float64bits(fy) && !(fx != fx && fy != fy) {
+				return path
+			}
+		}
+		return ""
+	}
+	return diff(reflect.ValueOf(a), reflect.ValueOf(b), "", 0)
 }
 
 // HasNegZero reports whether some float of v is a negative zero.
